@@ -9,3 +9,4 @@ import TradingVerif.Props.C05
 #print axioms TV.nlv_decomposition
 #print axioms TV.weight_def
 #print axioms TV.notional_def
+#print axioms TV.nlv_decomposition_inv
